@@ -407,19 +407,31 @@ func (td *TestDir) wantList(path string) []string {
 	return l
 }
 
+// listLines: the lines of a list response as a sorted MULTISET (a version reported twice is not
+// "exactly the stored versions"); the order of the lines is not part of the property (the go
+// command sorts what it receives).
 func listLines(body []byte) []string {
-	set := map[string]bool{}
+	var r []string
 	for _, l := range strings.Split(string(body), "\n") {
 		if l != "" {
-			set[l] = true
+			r = append(r, l)
 		}
-	}
-	var r []string
-	for v := range set {
-		r = append(r, v)
 	}
 	sort.Strings(r)
 	return r
+}
+
+// canonList: list responses are compared with the model as multisets of lines: "200 <hex>" of a
+// list URL is rewritten with its lines sorted.  Everything else is returned unchanged.
+func canonList(u, ob string) string {
+	if !strings.HasSuffix(u, "/@v/list") || !strings.HasPrefix(ob, "200 ") {
+		return ob
+	}
+	body := common.UnHex(strings.TrimPrefix(ob, "200 "))
+	if len(body) == 0 || body[len(body)-1] != '\n' {
+		return ob // not a sequence of lines: compared as it is
+	}
+	return "200 " + common.Hex([]byte(strings.Join(listLines(body), "\n")+"\n"))
 }
 
 // checkStored evaluates the property for one request about a stored module version of a clean
@@ -483,38 +495,55 @@ func showEntries(es []entry) string {
 	return "[" + strings.Join(p, " ") + "]"
 }
 
-// servedFromStore: whatever a clean directory serves with status 200 is stored content.
-func (td *TestDir) servedFromStore(path string, r resp) string {
-	if r.Err != "" || r.Status == 404 {
-		return ""
-	}
-	if r.Status != 200 {
-		return fmt.Sprintf("status %d", r.Status)
-	}
-	if strings.HasSuffix(path, "/@v/list") {
-		got := listLines(r.Body)
-		for i := range td.Mods {
-			if strings.Join(td.wantList(td.Mods[i].Path), ",") == strings.Join(got, ",") {
-				return ""
-			}
-		}
-		return fmt.Sprintf("list %q is not the version list of a stored module", clip(r.Body))
-	}
+// servable: the URL paths a clean directory serves, built from the generator's intent with
+// x/mod's escaping only (no parsing of URLs): list of every module that has a listable version,
+// info/mod of every stored version that has the file, zip of every stored version.
+type servedAs struct {
+	m   *Mod
+	ext string
+}
+
+func (td *TestDir) servable() map[string]servedAs {
+	s := map[string]servedAs{}
 	for i := range td.Mods {
 		m := &td.Mods[i]
-		if r.IsZip {
-			if r.ZipOK && sameEntries(sortedEntries(r.Entries), m.wantZip()) {
-				return ""
+		for _, ext := range []string{"info", "mod", "zip"} {
+			if _, ok := m.file("." + ext); !ok && ext != "zip" {
+				continue
 			}
-			continue
+			if u, ok := fileURL(m.Path, m.Vers, ext); ok {
+				s[u] = servedAs{m, ext}
+			}
 		}
-		for _, e := range []string{".info", ".mod"} {
-			if d, ok := m.file(e); ok && bytes.Equal(d, r.Body) && strings.HasSuffix(path, e) {
-				return ""
+		if len(td.wantList(m.Path)) > 0 {
+			if u, ok := listURL(m.Path); ok {
+				if _, dup := s[u]; !dup {
+					s[u] = servedAs{m, "list"}
+				}
 			}
 		}
 	}
-	return fmt.Sprintf("200 response %q is not a stored file", clip(r.Body))
+	return s
+}
+
+// exactly404: "anything not stored yields 404" as an iff, for a clean directory and a URL path
+// without "_": a URL of the servable set must be answered as checkStored says; a commit-hash
+// request as checkHash says; EVERYTHING else with 404, whatever it looks like (unknown
+// extensions, extensions that name a stored dot-file, case variants, trailing slashes, ...).
+func (td *TestDir) exactly404(sv map[string]servedAs, u string, r resp) string {
+	if r.Err != "" {
+		return ""
+	}
+	if as, ok := sv[u]; ok {
+		return td.checkStored(as.m, as.ext, r)
+	}
+	if hashURL.MatchString(u) {
+		return td.checkHash(u, r)
+	}
+	if r.Status != 404 {
+		return fmt.Sprintf("status %d %q for a URL that names nothing stored (not list/info/mod/zip of a stored module version)", r.Status, clip(r.Body))
+	}
+	return ""
 }
 
 // ---------------------------------------------------------------- request sets
@@ -543,6 +572,7 @@ var malformed = []string{
 func (td *TestDir) requests(r *common.RNG, tier string) []request {
 	var rs []request
 	paths := map[string]bool{}
+	off0 := r.Intn(42) // rotates the sampled near-miss URLs and extensions from directory to directory
 	for i := range td.Mods {
 		m := &td.Mods[i]
 		for _, ext := range []string{"info", "mod", "zip"} {
@@ -568,6 +598,38 @@ func (td *TestDir) requests(r *common.RNG, tier string) []request {
 			if u, ok := fileURL(m.Path, m.Vers, e); ok && (tier == "thorough" || (ei+i)%3 == 0) {
 				// ".mod.bak": the extension is "bak"; "" : trailing dot
 				rs = append(rs, request{URL: u, Class: "unknown-ext"})
+			}
+		}
+		// every extension for which the directory holds a dot-file (.netrc, .gitignore, .info2, .mod~,
+		// nested ones too): a dot-file is hidden from the zip and has no endpoint of its own
+		ep, ev := must(escPath(m.Path)), must(escVers(m.Vers))
+		dotExts := map[string]bool{}
+		for j := range td.Mods {
+			for _, f := range td.Mods[j].Files {
+				if strings.HasPrefix(f.Name, ".") && f.Name != ".info" && f.Name != ".mod" && f.Name != ".zip" {
+					dotExts[f.Name[1:]] = true
+				}
+			}
+		}
+		var des []string
+		for e := range dotExts {
+			des = append(des, e)
+		}
+		sort.Strings(des)
+		for _, e := range des {
+			rs = append(rs, request{URL: "/mod/" + ep + "/@v/" + ev + "." + e, Class: "dotfile-ext"})
+		}
+		// extensions near the served ones, and the names people keep next to modules
+		for xi, e := range nearExts {
+			if tier == "thorough" || (xi+i+int(off0))%6 == 0 {
+				rs = append(rs, request{URL: "/mod/" + ep + "/@v/" + ev + "." + e, Class: "unknown-ext"})
+			}
+		}
+		// near misses of the URLs that ARE served
+		nm := nearMisses(ep, ev)
+		for ni, u := range nm {
+			if tier == "thorough" || (ni+i+int(off0))%7 == 0 {
+				rs = append(rs, request{URL: u, Class: "near-miss"})
 			}
 		}
 		// commit-hash requests (resolved through pseudo-version suffixes and .info Short fields)
@@ -638,6 +700,29 @@ func (td *TestDir) requests(r *common.RNG, tier string) []request {
 }
 
 func must(s string, ok bool) string { return s }
+
+var nearExts = []string{"netrc", "gitignore", "hidden", "info2", "mod~", "zip2", "INFO", "Info", "MOD", "Mod", "ZIP", "Zip", "list",
+	"txtar", "lock", "sum", "json", "info ", " info", "info\n", "mod\x00", "zip/", "info/", "info.", "infomod", "inf", "mo", "zi", "i", "%s", "%69nfo", "info%00", "*"}
+
+// nearMisses: URL paths one edit away from the served ones of a stored module version.
+func nearMisses(ep, ev string) []string {
+	b := "/mod/" + ep + "/@v/"
+	var us []string
+	for _, e := range []string{"info", "mod", "zip"} {
+		u := b + ev + "." + e
+		us = append(us, u+"/", u+".", u+"~", u+"%20", u+"/.", u+"/..", b+ev+".."+e, b+ev+"."+e+"."+e, b+"/"+ev+"."+e, b+"./"+ev+"."+e,
+			b+ev+"/."+e, b+ev+"."+strings.ToUpper(e), b+strings.ToUpper(ev)+"."+e, b+" "+ev+"."+e, b+ev+" ."+e,
+			"/mod/"+ep+"/@V/"+ev+"."+e, "/mod/"+ep+"//@v/"+ev+"."+e, "/mod/"+ep+"/@v"+ev+"."+e, "/mod/"+ep+"@v/"+ev+"."+e,
+			"/mod//"+ep+"/@v/"+ev+"."+e, "/mod/mod/"+ep+"/@v/"+ev+"."+e, "/Mod/"+ep+"/@v/"+ev+"."+e, "/"+ep+"/@v/"+ev+"."+e,
+			"/mod/"+ep+"/@v/"+ev+"."+e+"?go-get=1", "/mod/"+ep+"/@v/"+ev+"."+e+"#frag", "/mod/"+ep+"/x/../@v/"+ev+"."+e,
+			"/mod/"+strings.ToUpper(ep)+"/@v/"+ev+"."+e, "/mod/"+ep+"/@v/"+ev+"."+e+"/../"+ev+"."+e)
+	}
+	us = append(us, b, b+"list/", b+"list.", b+"List", b+"LIST", b+"list ", b+" list", b+"lists", b+"lis", b+"list/list", b+"/list", b+"list.info",
+		"/mod/"+ep+"/@latest", "/mod/"+ep+"/@v", "/mod/"+ep, "/mod/"+ep+"/", "/mod/"+ep+"/@v/.info", "/mod/"+ep+"/@v/..info", "/mod/"+ep+"/@v/.", "/mod/"+ep+"/@v/"+ev,
+		"/mod/"+ep+"/@v/"+ev+".", "/mod/"+ep+"/@v/latest.info", "/mod/"+ep+"/@v/.zip", "/mod/"+ep+"/@v/.mod", "/mod/"+ep+"/@v/list/"+ev+".info",
+		"/mod/"+ep+"/@v/@v/list", "/mod/"+ep+"/@V/list", "/mod/"+ep+"//@v/list", "/mod//"+ep+"/@v/list", "/mod/"+ep+"/@v//list", "/MOD/"+ep+"/@v/list")
+	return us
+}
 
 func parent(p string) string {
 	i := strings.LastIndex(p, "/")
@@ -739,6 +824,9 @@ func (rn *runner) evalDir(td *TestDir, seed uint64, only *request, report bool) 
 		rn.note("cannot read directory back: " + err.Error())
 		return nil
 	}
+	if report {
+		rn.contentBuckets(td)
+	}
 	r := common.NewRNG(seed)
 	reqs := td.requests(r, rn.f.Tier)
 	if only != nil && only.URL != "" {
@@ -828,6 +916,30 @@ func (rn *runner) evalDir(td *TestDir, seed uint64, only *request, report bool) 
 		}
 	}
 
+	// served_b: the model's decision "answered with something else than 404", taken from the
+	// store without running a handler (C20_route_404_exact / C20_served_b_exact)
+	exact := map[int]bool{}
+	if modelStarts {
+		var us []string
+		var idx []int
+		for i, q := range reqs {
+			if sendable(q.URL) {
+				us = append(us, hx(q.URL))
+				idx = append(idx, i)
+			}
+		}
+		t0 = time.Now()
+		parts := strings.Fields(mc.ask1("exact " + strings.Join(us, " ")))
+		addT(&tModel, time.Since(t0))
+		if len(parts) == len(idx)+1 && parts[0] == "x" {
+			for k, i := range idx {
+				exact[i] = parts[k+1] == "1"
+			}
+		} else if len(idx) > 0 {
+			fail("correspondence", "model-process", "", clip([]byte(strings.Join(parts, " "))), "", "the model did not answer the exact request")
+		}
+	}
+
 	// ---- implementation: a fresh server
 	srv, err := goproxytest.NewServer(root, "127.0.0.1:0")
 	if report {
@@ -856,8 +968,7 @@ func (rn *runner) evalDir(td *TestDir, seed uint64, only *request, report bool) 
 		}
 		impl[i] = get(host, q.URL)
 	}
-	srv.Close()
-	addT(&tSeq, time.Since(t1))
+	servable := td.servable()
 
 	// the central directory of every zip response: as the model derives it (names, order, method,
 	// flags, CRC-32 as oracle, sizes) and as archive/zip reads it
@@ -898,8 +1009,26 @@ func (rn *runner) evalDir(td *TestDir, seed uint64, only *request, report bool) 
 			rn.count("outcome:" + q.Class + ":" + strings.SplitN(ob, " ", 2)[0])
 			rn.caseOf(fmt.Sprintf("%d|%s|%s", td.idx, q.URL, ob), !strings.HasPrefix(ob, "404") || q.Class != "malformed")
 		}
-		if modelStarts && ob != seqAns[i] && impl[i].Err == "" {
+		if modelStarts && impl[i].Err == "" && ob != seqAns[i] && canonList(q.URL, ob) == canonList(q.URL, seqAns[i]) {
+			// same versions, other order: the order of the list lines is not part of the property
+			// (C20_list_exact gives the model's order, directory order); recorded, not reported
+			if report {
+				rn.count("list-order-differs-from-directory-order(not a violation)")
+			}
+		}
+		if modelStarts && canonList(q.URL, ob) != canonList(q.URL, seqAns[i]) && impl[i].Err == "" {
 			fail("correspondence", "response:"+q.Class, q.URL, clip([]byte(seqAns[i])), clip([]byte(ob)), "model response (one server, same request order) and HTTP response differ")
+		}
+		if sv, ok := exact[i]; ok {
+			if sv != (mans[2+i] != "404") {
+				fail("correspondence", "served-b-vs-respond:"+q.Class, q.URL, fmt.Sprint(sv), clip([]byte(mans[2+i])), "the model's served_b and its own response disagree (C20_served_b_exact says they cannot)")
+			}
+			if impl[i].Err == "" && sv != (impl[i].Status != 404) {
+				fail("correspondence", "served-iff-stored:"+q.Class, q.URL, fmt.Sprint(sv), clip([]byte(ob)), "served_b (Model: true = the URL names something stored) and the status of the HTTP response (404 or not) disagree")
+			}
+			if report {
+				rn.count("served-iff-stored-compared")
+			}
 		}
 		if strings.Contains(q.URL, "_") {
 			// a request with "_" can alias a stored module (sub_x for sub/x) even in a clean
@@ -943,22 +1072,44 @@ func (rn *runner) evalDir(td *TestDir, seed uint64, only *request, report bool) 
 			if msg := td.checkStored(q.Mod, q.Ext, impl[i]); msg != "" {
 				fail("impl-violation", "serves-stored/"+q.Ext, q.URL, "", clip([]byte(ob)), msg)
 			}
-		case q.Class == "unknown-module" || q.Class == "unknown-version" || q.Class == "unknown-ext" || q.Class == "malformed":
-			if impl[i].Status != 404 {
-				fail("impl-violation", "not-stored-404/"+q.Class, q.URL, "", clip([]byte(ob)), "a request for something that is not stored is not answered with 404")
-			}
 		case strings.Contains(q.URL, "_"):
 			// outside the property (ambiguous naming); compared with the model above
-		case q.Class == "hash":
+		case q.Class == "hash" && hashURL.MatchString(q.URL):
 			if msg := td.checkHash(q.URL, impl[i]); msg != "" {
 				fail("impl-violation", "hash-resolution", q.URL, "", clip([]byte(ob)), msg)
 			}
 		default:
-			if msg := td.servedFromStore(q.URL, impl[i]); msg != "" {
-				fail("impl-violation", "served-from-store/"+q.Class, q.URL, "", clip([]byte(ob)), msg)
+			// every other request, whatever its class: served iff it is in the servable set
+			if msg := td.exactly404(servable, q.URL, impl[i]); msg != "" {
+				if _, ok := servable[q.URL]; ok || hashURL.MatchString(q.URL) {
+					fail("impl-violation", "served-from-store/"+q.Class, q.URL, "", clip([]byte(ob)), msg)
+				} else {
+					fail("impl-violation", "not-stored-404/"+q.Class, q.URL, "", clip([]byte(ob)), msg)
+				}
 			}
 		}
 	}
+	// ---- the server's observable state after the whole sequence: every stored list/info/mod/zip
+	// once more on the same server; a handler must not change what later requests see
+	if td.Clean && only == nil {
+		for i, q := range reqs {
+			if q.Mod == nil || !sendable(q.URL) || impl[i].Err != "" {
+				continue
+			}
+			again := get(host, q.URL)
+			if report {
+				rn.count("state-unchanged-request")
+				rn.caseOf(fmt.Sprintf("st|%d|%s", td.idx, q.URL), true)
+			}
+			if again.Err == "" && canonList(q.URL, again.obs()) != canonList(q.URL, impl[i].obs()) {
+				fail("impl-violation", "state-unchanged/after-sequential", q.URL, "", clip([]byte(again.obs())),
+					"after the other requests of the sequence the same server answers this request differently; first response: "+clip([]byte(impl[i].obs())))
+				break
+			}
+		}
+	}
+	srv.Close()
+	addT(&tSeq, time.Since(t1))
 
 	// ---- concurrent first requests: a fresh server, 16 simultaneous requests per module version
 	// (zip, info and a hash request), all released together
@@ -968,20 +1119,41 @@ func (rn *runner) evalDir(td *TestDir, seed uint64, only *request, report bool) 
 	}
 	var jobs []cjob
 	for i, q := range reqs {
-		if (q.Class == "stored-zip" || q.Class == "stored-info" || q.Class == "hash" || only != nil) && sendable(q.URL) {
+		if (strings.HasPrefix(q.Class, "stored-") || q.Class == "hash" || only != nil) && sendable(q.URL) {
 			jobs = append(jobs, cjob{q, i})
 		}
 	}
-	maxJobs := 5
+	maxJobs := 6
 	if rn.f.Tier == "thorough" {
 		maxJobs = 16
 	}
 	if len(jobs) > maxJobs {
-		// keep a spread: zip requests first (they use both caches), then the others
-		sort.SliceStable(jobs, func(a, b int) bool { return jobs[a].q.Class == "stored-zip" && jobs[b].q.Class != "stored-zip" })
-		pick := append([]cjob{}, jobs[:maxJobs-2]...)
-		pick = append(pick, jobs[len(jobs)-2:]...)
-		jobs = pick
+		// keep a spread: every list request (the module list is shared by all handlers), then zip
+		// requests (they use both caches), then the others
+		rank := func(c string) int {
+			switch c {
+			case "stored-list":
+				return 0
+			case "stored-zip":
+				return 1
+			}
+			return 2
+		}
+		sort.SliceStable(jobs, func(a, b int) bool { return rank(jobs[a].q.Class) < rank(jobs[b].q.Class) })
+		nl := 0
+		for _, j := range jobs {
+			if j.q.Class == "stored-list" {
+				nl++
+			}
+		}
+		if nl > 2 {
+			jobs = append(append([]cjob{}, jobs[:2]...), jobs[nl:]...)
+		}
+		if len(jobs) > maxJobs {
+			pick := append([]cjob{}, jobs[:maxJobs-2]...)
+			pick = append(pick, jobs[len(jobs)-2:]...)
+			jobs = pick
+		}
 	}
 	if len(jobs) > 0 {
 		srv2, err := goproxytest.NewServer(root, "127.0.0.1:0")
@@ -1005,10 +1177,29 @@ func (rn *runner) evalDir(td *TestDir, seed uint64, only *request, report bool) 
 			t2 := time.Now()
 			close(start)
 			wg.Wait()
+			// the server's observable state after the concurrent batch: every stored list/info/mod/zip,
+			// sequentially, on the same server, against the sequential server's responses
+			if td.Clean && only == nil {
+				for i, q := range reqs {
+					if q.Mod == nil || !sendable(q.URL) || impl[i].Err != "" {
+						continue
+					}
+					again := get(host2, q.URL)
+					if report {
+						rn.count("state-unchanged-request")
+						rn.caseOf(fmt.Sprintf("st2|%d|%s", td.idx, q.URL), true)
+					}
+					if again.Err == "" && canonList(q.URL, again.obs()) != canonList(q.URL, impl[i].obs()) {
+						fail("impl-violation", "state-unchanged/after-concurrent", q.URL, "", clip([]byte(again.obs())),
+							"after a batch of concurrent first requests the server answers this request differently from a server that was asked sequentially: "+clip([]byte(impl[i].obs())))
+						break
+					}
+				}
+			}
 			srv2.Close()
 			addT(&tConc, time.Since(t2))
 			for j, jb := range jobs {
-				seqObs := impl[jb.idx].obs()
+				seqObs := canonList(jb.q.URL, impl[jb.idx].obs())
 				for k := 0; k < par; k++ {
 					if out[j][k].Err != "" {
 						if report {
@@ -1018,7 +1209,7 @@ func (rn *runner) evalDir(td *TestDir, seed uint64, only *request, report bool) 
 							"a concurrent first request on a fresh server was not answered (connection closed / reset), sequential response: "+clip([]byte(seqObs)))
 						break
 					}
-					ob := out[j][k].obs()
+					ob := canonList(jb.q.URL, out[j][k].obs())
 					if report {
 						rn.count("concurrent-request")
 						rn.caseOf(fmt.Sprintf("c|%d|%s|%d", td.idx, jb.q.URL, k), true)
@@ -1036,7 +1227,7 @@ func (rn *runner) evalDir(td *TestDir, seed uint64, only *request, report bool) 
 						fail("impl-violation", "concurrent-same", jb.q.URL, "", clip([]byte(ob)), "a concurrent first request got a response different from the sequential one: "+clip([]byte(seqObs)))
 						break
 					}
-					if modelStarts && ob != mans[2+jb.idx] {
+					if modelStarts && ob != canonList(jb.q.URL, mans[2+jb.idx]) {
 						fail("correspondence", "concurrent-response", jb.q.URL, clip([]byte(mans[2+jb.idx])), clip([]byte(ob)), "concurrent response differs from the model's")
 						break
 					}
@@ -1097,6 +1288,51 @@ func (rn *runner) evalDir(td *TestDir, seed uint64, only *request, report bool) 
 		rn.sample(map[string]any{"modules": mods, "clean": td.Clean, "requests": len(reqs), "modlist": clip([]byte(mans[1]))})
 	}
 	return fails
+}
+
+// contentBuckets records which kinds of stored bytes the run really served (generator quality).
+func (rn *runner) contentBuckets(td *TestDir) {
+	for _, m := range td.Mods {
+		for _, f := range m.Files {
+			kind := "stored-file"
+			if f.Name == ".info" || f.Name == ".mod" {
+				kind = "stored" + f.Name
+			} else if strings.HasPrefix(f.Name, ".") {
+				kind = "stored-dotfile"
+				if !strings.Contains(f.Name, "/") {
+					rn.count("stored-dotfile:top-level(extension probed)")
+				}
+			}
+			d := f.Data
+			feat := func(name string, ok bool) {
+				if ok {
+					rn.count(kind + ":" + name)
+				}
+			}
+			feat("has-%", bytes.IndexByte(d, '%') >= 0)
+			feat("has-backslash", bytes.IndexByte(d, '\\') >= 0)
+			feat("has-NUL", bytes.IndexByte(d, 0) >= 0)
+			feat("invalid-utf8", !utf8.Valid(d))
+			feat("has-CR", bytes.IndexByte(d, '\r') >= 0)
+			feat("empty", len(d) == 0)
+			feat("no-final-newline", len(d) > 0 && d[len(d)-1] != '\n')
+			feat("longer-than-64k", len(d) > 65536)
+			long := false
+			for _, l := range bytes.Split(d, []byte("\n")) {
+				if len(l) > 4096 {
+					long = true
+				}
+			}
+			feat("line-longer-than-4k", long)
+			if kind == "stored-file" {
+				n := f.Name
+				feat("name-has-%", strings.Contains(n, "%"))
+				feat("name-invalid-utf8", !utf8.ValidString(n))
+				feat("name-non-ascii-or-control", strings.IndexFunc(n, func(r rune) bool { return r < 0x20 || r > 0x7e }) >= 0)
+				feat("name-has-backslash", strings.Contains(n, "\\"))
+			}
+		}
+	}
 }
 
 // ---------------------------------------------------------------- escaping, directly
@@ -1322,6 +1558,14 @@ func main() {
 			res.Write(f.Out)
 			return
 		}
+		if td.Many != nil {
+			for _, fl := range rn.manyOne(*td.Many, true) {
+				rn.violateMany(*td.Many, fl)
+			}
+			res.Rule = "replay of the concurrent first list requests on modules with many versions"
+			res.Write(f.Out)
+			return
+		}
 		var only *request
 		if u := rp.Violation.Input["url"]; u != "" && rp.Violation.Input["class"] != "whole-directory" {
 			only = &request{URL: u, Class: rp.Violation.Input["class"]}
@@ -1394,6 +1638,7 @@ func main() {
 			rn.violate(best, bestF, only)
 		}
 	}
+	bgDone := make(chan struct{})
 	runQueue := func() {
 		var wg sync.WaitGroup
 		next := int64(-1)
@@ -1411,6 +1656,7 @@ func main() {
 			}()
 		}
 		wg.Wait()
+		<-bgDone                  // the big-archive and many-versions phases ran side by side with the directories
 		for _, j := range queue { // in generation order: the report does not depend on the scheduling
 			if len(j.fs) > 0 {
 				shrinkAndReport(j.td, j.seed, j.fs)
@@ -1457,22 +1703,32 @@ func main() {
 		res.Count("src:odd")
 		one(genOddDir(r.Fork()), r.Uint64())
 	}
+	// 5a/5b run next to the directory queue (they compete for the CPU, which only widens the
+	// windows); their failures are reported afterwards, in a fixed order
+	var bigReport, manyReport func()
+	go func() {
+		bigReport = rn.bigPhase(f.Seed, f.Tier)
+		manyReport = rn.manyPhase(f.Seed, f.Tier)
+		close(bgDone)
+	}()
 	runQueue()
 	// 4. escaping compared directly with x/mod
 	rn.escapeChecks(r.Fork(), nEsc)
 	rn.xmodFuzz(r.Fork(), nEsc/4)
 	// 5. go mod download end to end
 	// 5a. concurrent first requests on big archives
-	rn.bigPhase(f.Seed, f.Tier)
+	bigReport()
+	// 5b. concurrent first list requests on modules with very many versions
+	manyReport()
 	t3 := time.Now()
 	rn.goModDownload(all, nE2E)
 	tE2E = time.Since(t3)
-	res.Notes = append(res.Notes, fmt.Sprintf("time: model %.1fs (first pass %.1fs, oracle rounds %.1fs), sequential HTTP %.1fs, concurrent HTTP %.1fs, big-archive concurrent rounds %.1fs, go mod download %.1fs", tModel.Seconds(), tFirst.Seconds(), tRounds.Seconds(), tSeq.Seconds(), tConc.Seconds(), tBig.Seconds(), tE2E.Seconds()))
+	res.Notes = append(res.Notes, fmt.Sprintf("time: model %.1fs (first pass %.1fs, oracle rounds %.1fs), sequential HTTP %.1fs, concurrent HTTP %.1fs, big-archive concurrent rounds %.1fs, many-versions concurrent rounds %.1fs, go mod download %.1fs", tModel.Seconds(), tFirst.Seconds(), tRounds.Seconds(), tSeq.Seconds(), tConc.Seconds(), tBig.Seconds(), tMany.Seconds(), tE2E.Seconds()))
 
 	res.Notes = append(res.Notes, fmt.Sprintf("%d oracle-table entries supplied to the model on demand in %d rounds, %d requests re-asked (x/mod CheckPath, checkElem, Check, semver.IsValid/Compare, pseudoVersionRE, json Short)", sumConns(conns, 0), sumConns(conns, 1), sumConns(conns, 2)),
 		fmt.Sprintf("%d directories evaluated by %d parallel workers (one model process each); failures are shrunk and reported afterwards in generation order", len(queue), workers),
 		"module paths and versions containing \"_\" are excluded from the direct oracles (ambiguous on-disk naming); such directories are compared with the model only")
-	res.Rule = fmt.Sprintf("corpus, /repo's testdata/mod, %d clean generated module directories (1-3 modules x 1-4 versions: upper-case and nested paths, major suffixes, gopkg.in; semver, prerelease, pseudo, +incompatible, mismatching and invalid versions; .txt/.txtar/directory layouts; .info/.mod present or missing, nested, dot and empty files) and %d directories outside the naming discipline (two layouts at once, versions without v, underscores, undecodable names, wrong entry kinds, hand-written archives), each served by a real goproxytest.Server; per directory: list/info/mod/zip of every stored version, unknown modules/versions/extensions, a third of %d fixed malformed URLs (all in thorough), commit-hash requests, mutated URLs, every zip response checked for validity (archive/zip, an independent hand-written container reader, re-serialisation) and its central directory compared with the model's; a third of the clean directories served again under nine other spellings of the directory name (trailing slash, ./rel, relative, //, /./, /../) and another third next to a second server in the same process on a directory with the same module versions and different contents (all of them in thorough); then 16 concurrent first requests for each of up to 5 URLs (16 in thorough) on a fresh server and one random interleaving of the model's handlers; then 3 big modules (0.6-1.2 MB under the race detector, where loading and zipping them takes 100 ms and more: 600-member .txt archive, 250-file directory, 4 x 300 kB .txtar; 3-30 MB in thorough) each served by fresh servers hit by 16-32 first requests for info/mod/zip staggered by 0-5 ms, 3 rounds each, every response required to be 200 with the stored body, and the race detector's log read after every concurrent round; %d escape/unescape strings against x/mod; the Gallina model of x/mod (CheckPath, SplitPathVersion, checkElem, Check, semver IsValid/Canonical/Compare, the pseudo-version expression) compared with x/mod on every decision taken while answering and on a quarter as many generated near-valid paths and versions, and every sixth directory answered again from oracle tables; a case is one HTTP request (non-trivial unless a fixed malformed URL answered 404); distinct = distinct (directory, URL, response)", nClean, nOdd, len(malformed), nEsc)
+	res.Rule = fmt.Sprintf("corpus, /repo's testdata/mod, %d clean generated module directories (1-3 modules x 1-4 versions: upper-case and nested paths, major suffixes, gopkg.in; semver, prerelease, pseudo, +incompatible, mismatching and invalid versions; .txt/.txtar/directory layouts; .info/.mod present or missing, nested, dot and empty files; a third of the file contents and .info/.mod of the non-realistic modules are ARBITRARY BYTES: printf verbs and lone %%, backslashes, NUL and control bytes, invalid UTF-8, CRLF and lone CR, no final newline, lines of 1-70 kB, random bytes; member names with %%, spaces, backslash, quotes, non-ASCII and invalid UTF-8; dot-files such as .netrc .gitignore .info2 .mod~ .zip2 .INFO; for archive layouts the intent is what x/tools txtar reads back from the formatted archive; the buckets stored.info:* / stored.mod:* / stored-file:* count what was really served) and %d directories outside the naming discipline (two layouts at once, versions without v, underscores, undecodable names, wrong entry kinds, hand-written archives), each served by a real goproxytest.Server; per directory: list/info/mod/zip of every stored version, unknown modules/versions/extensions, EVERY extension for which any module of the directory holds a dot-file (top-level or nested), a rotating sixth of 33 near extensions (case variants, info2, mod~, blanks, NUL ...) and a rotating seventh of ~115 near-miss URLs per stored version (trailing slash or dot, doubled or missing separators, /@V/, /@latest, list/, List, empty version, upper-cased path/version/extension, ?query and #fragment in the path, /../), a third of %d fixed malformed URLs (all in thorough), commit-hash requests, mutated URLs; direct oracle for every request of a clean directory whatever its class: the URL is in the servable set built from the generator's intent (then the stored content), or a commit-hash request (then hash-resolution), or it must be 404 (exactly404); the model's served_b (C20_served_b_exact) compared with the status of every response; list responses compared with the model and with the intent as MULTISETS of lines (a duplicate is a failure; the order is recorded, not required); after the sequence and after the concurrent batch every stored list/info/mod/zip is requested again on the same server and must be unchanged (state-unchanged); every zip response checked for validity (archive/zip, an independent hand-written container reader, re-serialisation) and its central directory compared with the model's; a third of the clean directories served again under nine other spellings of the directory name (trailing slash, ./rel, relative, //, /./, /../) and another third next to a second server in the same process on a directory with the same module versions and different contents (all of them in thorough); then 16 concurrent first requests for each of up to 6 URLs (list of up to two modules, zip, info/mod, hash; 16 in thorough) on a fresh server and one random interleaving of the model's handlers; then 3 big modules (0.6-1.2 MB under the race detector, where loading and zipping them takes 100 ms and more: 600-member .txt archive, 250-file directory, 4 x 300 kB .txtar; 3-30 MB in thorough) each served by fresh servers hit by 16-32 first requests for info/mod/zip staggered by 0-5 ms, 3 rounds each, every response required to be 200 with the stored body, and the race detector's log read after every concurrent round; 2 many-versions directories (2 modules x 1500 and 3 x 300 stored versions whose directory order is not semver order, pseudo / prerelease / +incompatible / wrong-major / invalid versions mixed in): 3-4 rounds of 8-16 concurrent first list requests plus info/mod/zip requests on a fresh server, every list required to be exactly the listable stored versions as a multiset, then the same lists sequentially on the same server and commit-hash requests (big and many-versions phases run side by side with the directory queue); %d escape/unescape strings against x/mod; the Gallina model of x/mod (CheckPath, SplitPathVersion, checkElem, Check, semver IsValid/Canonical/Compare, the pseudo-version expression) compared with x/mod on every decision taken while answering and on a quarter as many generated near-valid paths and versions, and every sixth directory answered again from oracle tables; a case is one HTTP request (non-trivial unless a fixed malformed URL answered 404); distinct = distinct (directory, URL, response)", nClean, nOdd, len(malformed), nEsc)
 	res.Write(f.Out)
 }
 
